@@ -92,7 +92,7 @@ func (s *testServer) do(method string, body []byte) httpResult {
 // doReq sends a generated request with its framing.
 func (s *testServer) doReq(r genReq) httpResult {
 	if r.Framing == "" {
-		return s.do(r.Method, r.bytes())
+		return doRequest(s.client, r.Method, "http://"+s.ProverAddr+"/prove"+r.Query, r.bytes())
 	}
 	t0 := time.Now()
 	body := r.bytes()
@@ -100,7 +100,7 @@ func (s *testServer) doReq(r genReq) httpResult {
 	if r.Framing == "chunked" {
 		rd = struct{ io.Reader }{rd} // hides the length: the client uses chunked transfer encoding
 	}
-	req, err := http.NewRequest(r.Method, "http://"+s.ProverAddr+"/prove", rd)
+	req, err := http.NewRequest(r.Method, "http://"+s.ProverAddr+"/prove"+r.Query, rd)
 	if err != nil {
 		return httpResult{Err: "harness:request: " + err.Error(), Start: t0, End: time.Now()}
 	}
